@@ -29,7 +29,9 @@ OutputOK(k) == k \in {"ok", "err"}
 
 JudgeLiParse(e, o) ==
     LET r == ParseLI(e.in) IN
-    IF ~OutputOK(e.out.k) THEN Bad("outcome-" \o e.out.k, <<"C01">>, o)
+    IF ~OutputOK(e.out.k) THEN Bad("outcome-" \o e.out.k, IF r.ok THEN <<"C01", "C02">> ELSE <<"C01">>, o)
+    (* canonicalize is a door to the same function: a panic there on a well-formed input is not success either *)
+    ELSE IF r.ok /\ e.canon.k = "panic" THEN Bad("canonicalize-panics-on-well-formed-input", <<"C01", "C02">>, o)
     ELSE IF r.ok /\ e.out.k = "ok" THEN
         IF e.st # r.val THEN Bad("li-value", <<"C02">>, o)
         ELSE IF e.ser # SerLI(r.val) THEN Bad("li-text", <<"C04", "C02">>, o)
@@ -57,7 +59,7 @@ TextOK(st, ser) ==
 
 JudgeLocParse(e, o) ==
     LET r == ParseLoc(e.in) IN
-    IF ~OutputOK(e.out.k) THEN Bad("outcome-" \o e.out.k, <<"C01">>, o)
+    IF ~OutputOK(e.out.k) THEN Bad("outcome-" \o e.out.k, IF r.zone = "accept" THEN <<"C01", "C03">> ELSE <<"C01">>, o)
     ELSE IF e.out.k = "ok" THEN
         (* an ill-formed input that is accepted is a C03 matter; if what is then printed is not a canonical    *)
         (* well-formed identifier either, C04 is violated as well (whatever the value came from)               *)
